@@ -5,7 +5,7 @@
      Complete : wf c v = true -> dec c (enc c v ++ rest) = Some (v, rest)   (canonical values decode back, whatever follows)
      LenOk    : wf c v = true -> elen c v = N.of_nat (length (enc c v))     (the length the encoder reports)
    The theorems hold for every curve-point oracle `pt_ok`, every MAX_VEC_SIZE and every element cap. *)
-From Coq Require Import List NArith Bool.
+From Coq Require Import List NArith Bool Lia.
 From Coq.Strings Require Import Byte.
 From EV Require Import Base.Bytes Base.Codec Model.Tx Model.Block Proofs.Tx Proofs.Block Proofs.Flags.
 Import ListNotations.
@@ -42,6 +42,27 @@ Proof. exact (deserialize_exact HD C01_header). Qed.
 Theorem C01_header_encode_decode : forall h, wf HD h = true -> deserialize HD (enc HD h) = Some h.
 Proof. exact (deserialize_complete HD C01_header). Qed.
 End C01.
+
+(* the constructor half: the values built by OutPoint::null / TxIn::default / AssetIssuance::null / TxOut::default / TxOut::new_fee
+   are canonical (hence round-trip), for every parameter *)
+Definition default_txin : txin := {| in_prev := {| o_txid := zero32; o_vout := 4294967295 |}; in_pegin := false; in_script := []; in_seq := 4294967295;
+  in_iss := null_issuance; in_wit := empty_inwit |}.
+Definition default_txout : txout := {| out_asset := ANull; out_value := VNull; out_nonce := NNull; out_script := []; out_wit := empty_outwit |}.
+Definition new_fee (amount : N) (asset : bytes) : txout :=
+  {| out_asset := AExplicit asset; out_value := VExplicit amount; out_nonce := NNull; out_script := []; out_wit := empty_outwit |}.
+Theorem C01_constructors_canonical : forall pt_ok maxvec,
+  wf (c_txin pt_ok maxvec) default_txin = true /\ wf (c_txout pt_ok maxvec) default_txout = true /\
+  wf c_outpoint {| o_txid := zero32; o_vout := 4294967295 |} = true /\
+  wf (c_issuance pt_ok) null_issuance = true /\
+  (forall amount asset, amount < 2 ^ 64 -> length asset = 32%nat -> wf (c_txout pt_ok maxvec) (new_fee amount asset) = true).
+Proof. intros pt_ok maxvec. repeat split.
+  - destruct maxvec; vm_compute; reflexivity.
+  - destruct maxvec; vm_compute; reflexivity.
+  - intros amount asset Ha Hl. unfold new_fee. cbn [c_txout c_txout_nowit c_conv wf out_wit outwit_is_empty empty_outwit w_surj w_range andb].
+    cbn [c_pair wf c_asset c_value c_nonce asset_wf value_wf nonce_wf out_asset out_value out_nonce out_script].
+    rewrite Hl. cbn [Nat.eqb]. replace (wf (c_be 8) amount) with true.
+    + destruct maxvec; vm_compute; reflexivity.
+    + symmetry. cbn [c_be wf]. apply N.ltb_lt. replace (256 ^ N.of_nat 8) with (2 ^ 64) by (vm_compute; reflexivity). exact Ha. Qed.
 
 (* why `wf` is needed: an input with index 0x3fffffff and both flags encodes to the coinbase index and does not come back *)
 Definition odd_txin : txin := {| in_prev := {| o_txid := zero32; o_vout := 1073741823 |}; in_pegin := true; in_script := []; in_seq := 0;
